@@ -49,6 +49,9 @@ def comps(ctx):
 
 
 def build(ctx):
+    import harness.util as _U
+    _U.PRELUDE = 3      # every third object (by crc32 of its sequence) answers after a query history (util.prelude)
+    _U.DECORATE = 4     # every fourth sequence is handed to the constructor in another accepted spelling (util.decorate)
     rng = ctx.rng
     cs = comps(ctx)
     seqs = [gen_seq.spell(rng, gen_seq.arrange(rng, c)) for c in cs]
